@@ -15,7 +15,7 @@ from .verify import verify_function
 def load_contracts():
     for m in ("rounding", "units", "quantity_ops", "term", "registry",
               "unit_ops", "qty_mul", "converter", "hashing", "money", "declare", "money_decl",
-              "term_impl"):
+              "term_impl", "allocate"):
         try:
             importlib.import_module("contracts." + m)
         except ModuleNotFoundError as e:
